@@ -100,7 +100,11 @@ UNITS = {
     },
     'min_callsite': {
         'template': 'min_callsite.vrs', 'backend': 'verus',
-        'serves': ['C16'],
+        'serves': ['C16', 'C10'],
+    },
+    'min_lines': {
+        'template': 'min_lines.vrs', 'backend': 'verus',
+        'serves': ['C10'],
     },
     'reader_glue': {
         'template': 'reader_glue.vrs', 'backend': 'verus',
@@ -325,6 +329,19 @@ PROPS = {
                       'chunk files, merge (text parsing, file deletion), progress bar - concurrency and I/O through scc/rayon/fs.',
         'not_reached': ['worker interleavings and chunk boundaries', 'merge(): parsing chunk files, summing, deleting temporary files', 'init(): partition count from float arithmetic'],
     },
+    'C10': {
+        'units': ['min_lines', 'min_callsite'], 'deps': ['minimiser', 'n2k', 'reader_glue'], 'replay': 'c10',
+        'level_text': 'Narrow claim. Verus proves for the per-record bodies of seq_to_min and bin_sequences, lifted verbatim and run against the `next` contract that unit `minimiser` proves for the real '
+                      'MinimiserGenerator (C09): for every record, every m in 1..=28 and w = 0 or w > m, (1) the iterator is drained and the ghost trace of what it handed out is the COMPLETE left-to-right list of '
+                      'the record\'s maximal runs for the effective window (w = 0: one window spanning the whole record, never narrower than m); (2) the s2m line is the record id, then exactly one entry per run in '
+                      'that order, each rendering (text_of(minimiser), start, end), then the newline entry; (3) the m2s table after the record equals the table before with exactly those runs appended, each under '
+                      'its minimiser text with (record id, start, end), and nothing else changed. Both listings are therefore functions of the same run list per record - the inversion relation at record granularity.',
+        'level_note': 'assumed, not verified: scc entry().and_modify(push).or_insert(vec![item]) is an atomic append (stub verif_upsert; the rewrite pattern demands the same item text in both closures, anything else is '
+                      'reported undecided); Mutex-guarded record hand-out and line write, rayon scope join; format!("{}:{}-{}") and {v:?} rendering (uninterpreted fmt_run), join("\\t"), the final scan() that writes the '
+                      'table; FASTA/FASTQ parsing (C06). Worker interleavings are NOT enumerated (no thread support in Kani, no Verus model of scc/Mutex); the schedule-independence clause rests on those assumed primitives. '
+                      'Bounded stand-in c10: real seq_to_min / bin_sequences files against the executable run spec (lines as multisets, m2s as exact inversion), 1..16 workers.',
+        'not_reached': ['worker interleavings (assumed primitives)', 'text rendering and the final table dump', 'closure glue between the lifted fragments (record hand-out, progress bar)'],
+    },
     'C15': {
         'units': ['cli_wiring', 'ctor'], 'deps': ['mmap_rows', 'batch_loops'], 'replay': 'c15',
         'level_text': 'Narrow claim. Verus proves for the lifted option-to-setter statements of the oligo, coverage, counter and minimiser arms of cli(), against stub computers whose setters record a ghost configuration: '
@@ -338,9 +355,6 @@ PROPS = {
 }
 
 NOT_APPLICABLE = {
-    'C10': 'whole-output inverse-multiset property of two files under worker interleavings and text formatting '
-           '(scc map, Mutex-guarded writer, format!): no function contract within reach of Verus/Kani expresses it; '
-           'its one contractable call-site obligation (window size 0 / m <= w) is decided under C16',
     'C17': 'history property of the file system (truncate-on-open, stale temp files of earlier runs): behaviour of '
            'File::create / OpenOptions / set_len inside std and the OS, no state a function contract here can observe',
 }
